@@ -382,6 +382,7 @@ func C05(r *h.Run) {
 		var body []byte
 		js := "JNoError"
 		meta := http.Header{"X-Peer-Meta": {"v1", "v2"}}
+		splitSpelling := false
 		switch proto {
 		case "grpc", "grpcweb":
 			if withAlg {
@@ -452,6 +453,13 @@ func C05(r *h.Run) {
 			end := map[string]any{}
 			mdKey := []string{"x-peer-meta", "X-Peer-Meta", "X-PEER-META"}[rng.Intn(3)]
 			end["metadata"] = map[string][]string{mdKey: {"v1", "v2"}}
+			if rng.Intn(3) == 0 {
+				// one field name under two spellings (names are case-insensitive: the peer supplied
+				// two values for X-Peer-Meta; a JSON object has no order, so either order is right)
+				end["metadata"] = map[string][]string{"x-peer-meta": {"v1"}, "X-Peer-Meta": {"v2"}}
+				splitSpelling = true
+				meta = http.Header{}
+			}
 			if code != 0 {
 				end["error"] = map[string]any{"code": code.String(), "message": msg}
 			}
@@ -500,11 +508,16 @@ func C05(r *h.Run) {
 		if code == 0 {
 			if cerr != nil {
 				r.Fail(h.Failure{Key: "conformance/peer-success-rejected", Family: "peer_vector", What: "a conformant successful response is reported as an error", Input: in, Actual: cerr.Error()})
-			} else if vs := append(resHeader.Values("X-Peer-Meta"), resTrailer.Values("X-Peer-Meta")...); !sublist([]string{"v1", "v2"}, vs) {
+			} else if vs := append(resHeader.Values("X-Peer-Meta"), resTrailer.Values("X-Peer-Meta")...); !sublist([]string{"v1", "v2"}, vs) && !(splitSpelling && sublist([]string{"v2", "v1"}, vs)) {
 				r.Fail(h.Failure{Key: "conformance/peer-metadata", Family: "peer_vector", What: "metadata of a conformant response is not visible", Input: in, Actual: vs})
 			}
 		} else {
 			checkError(r, "peer_vector", in, cerr, code, msg, nil, meta)
+			if ce := (*connect.Error)(nil); splitSpelling && errors.As(cerr, &ce) {
+				if vs := ce.Meta().Values("X-Peer-Meta"); !sublist([]string{"v1", "v2"}, vs) && !sublist([]string{"v2", "v1"}, vs) {
+					r.Fail(h.Failure{Key: "conformance/peer-metadata", Family: "peer_vector", What: "metadata of a conformant error response is not all in the error's metadata (one field name under two spellings)", Input: in, Actual: vs})
+				}
+			}
 		}
 	}
 	c05UnaryVectors(r, rng.Fork("unary-vectors"))
